@@ -55,3 +55,12 @@ func init() {
 			{"gorm.go", "func (db *DB) getInstance() *DB {", "func freshStatement(tx *DB, parent *Statement) *Statement {\n\treturn &Statement{\n\t\tDB:        tx,\n\t\tConnPool:  parent.ConnPool,\n\t\tContext:   parent.Context,\n\t\tClauses:   map[string]clause.Clause{},\n\t\tVars:      make([]interface{}, 0, 8),\n\t\tSkipHooks: parent.SkipHooks,\n\t}\n}\n\nfunc (db *DB) getInstance() *DB {"}}},
 	)
 }
+
+func init() {
+	addMutants(
+		Mutant{Name: "c06-count-deletes-from-receiver-clauses", Property: "C06", Rule: "C06.recv", Edits: []Edit{{"finisher_api.go",
+			"\ttx.Statement.Dest = count\n\ttx = tx.callbacks.Query().Execute(tx)\n", "\ttx.Statement.Dest = count\n\tdelete(db.Statement.Clauses, \"LIMIT\")\n\ttx = tx.callbacks.Query().Execute(tx)\n"}}},
+		Mutant{Name: "c06-count-deferred-delete-from-receiver-clauses", Property: "C06", Rule: "C06.recv", Edits: []Edit{{"finisher_api.go",
+			"\ttx.Statement.Dest = count\n\ttx = tx.callbacks.Query().Execute(tx)\n", "\ttx.Statement.Dest = count\n\tdefer delete(db.Statement.Clauses, \"LIMIT\")\n\ttx = tx.callbacks.Query().Execute(tx)\n"}}},
+	)
+}
